@@ -49,6 +49,15 @@ class ET(PlanError, TimeoutError):
     """a node's own timeout (TimeoutError is asyncio.TimeoutError since Python 3.11): an ordinary Exception"""
 
 
+class SI(StopIteration):
+    """a StopIteration that escapes from a body (next() on an exhausted iterator): inside coroutine code Python turns it
+    into a RuntimeError (PEP 479) whose cause it is - in every execution mode the failure is that RuntimeError"""
+
+    def __init__(self, token):
+        super().__init__(token)
+        self.token = token
+
+
 class CE(asyncio.CancelledError):
     """a CancelledError raised by a node body itself (an awaited helper of the body was cancelled): a BaseException
     that the engine did not ask for"""
@@ -66,7 +75,7 @@ class B1(BaseException):
         self.token = token
 
 
-EXC = {'E0': E0, 'ET': ET, 'E1': E1, 'E2': E2, 'E3': E3, 'B1': B1, 'CE': CE, 'Exception': Exception, 'PlanError': PlanError,
+EXC = {'E0': E0, 'ET': ET, 'SI': SI, 'E1': E1, 'E2': E2, 'E3': E3, 'B1': B1, 'CE': CE, 'Exception': Exception, 'PlanError': PlanError,
        'BaseException': BaseException}
 
 
@@ -138,7 +147,9 @@ class Runtime:
         from ml_pipeline_engine.dag.errors import BaseDagError
         from ml_pipeline_engine.dag.errors import OneOfDoesNotHaveResultError
         from ml_pipeline_engine.dag.errors import RecurrentSubgraphDoesNotHaveResultError
-        if isinstance(ex, (PlanError, B1, CE)):
+        if isinstance(ex, RuntimeError) and isinstance(ex.__cause__, SI):
+            ex = ex.__cause__          # PEP 479: the RuntimeError stands for the StopIteration that caused it
+        if isinstance(ex, (PlanError, B1, CE, SI)):
             tok = ex.token
             if self.raised.get(tok) is not ex:
                 return ('err_copy',) + tuple(tok[1:])
@@ -274,6 +285,12 @@ class Runtime:
     def executor_hook(self, func, args):
         target = getattr(func, 'func', func)
         inst = getattr(target, '__self__', None)
+        if inst is None:
+            # the run method may be handed to a helper as its first argument (functools.partial(helper, method, ...))
+            for a in getattr(func, 'args', ()) or ():
+                if getattr(a, '__self__', None) is not None:
+                    inst = a.__self__
+                    break
         nid = getattr(type(inst), 'verif_id', None)
         if nid is None:
             return None
